@@ -104,7 +104,7 @@ func (fx *FuncExec) execCall(st *State, instr ssa.Instruction, c *ssa.CallCommon
 	}
 	if fx.fc != nil {
 		for _, cs := range fx.fc.Calls {
-			if cs.Callee == short && cs.Ordinal == ord {
+			if cs.Callee == short && (cs.Ordinal == ord || cs.Ordinal == -1) {
 				env := fx.specEnv(st, fx.entry)
 				fx.withLoop(env, st)
 				env.callArgs = args
@@ -592,6 +592,9 @@ func (fx *FuncExec) checkFrame(exit *State, env *SpecEnv) {
 					cond = append(cond, not(eq("r", r)))
 				}
 			}
+			for _, r := range fx.envWrites[k] {
+				cond = append(cond, not(eq("r", r)))
+			}
 			goal = fmt.Sprintf("(forall ((r Int)) (=> %s (= (select %s r) (select %s r))))", and(cond...), h1, h0)
 		}
 		fx.oblige("frame", exit, goal, "nothing outside `modifies` changes in "+k, fx.fn.Pos())
@@ -781,6 +784,8 @@ func (fx *FuncExec) execLock(st *State, mu Val, pos token.Pos) {
 				st.heaps[vk] = fx.em.DefineRaw(vk, fx.heapInfos[vk].sortText, sto(vh, cur.S, fx.em.FreshRaw("lock", fmt.Sprintf("(Array %s %s)", ks, vs))))
 				fx.logWriteAt(dk, cur.S)
 				fx.logWriteAt(vk, cur.S)
+				fx.envWrite(dk, cur.S)
+				fx.envWrite(vk, cur.S)
 				continue // the map reference itself is stable unless a guarantee says otherwise
 			}
 			nv := fx.freshVal(ft, "lock:"+g, st)
@@ -796,6 +801,7 @@ func (fx *FuncExec) execLock(st *State, mu Val, pos token.Pos) {
 				fx.note("A5: guarded slice fields do not alias the function's slice parameters")
 			}
 			fx.Store(st, &Loc{Kind: LField, Ref: obj, Owner: owner, OwnerS: sty, Field: fi, T: ft}, nv)
+			fx.envWrite(fieldKey(owner, sty, fi), obj)
 		}
 		// ghost fields are part of the protected state
 		var gn []string
@@ -831,6 +837,18 @@ func (fx *FuncExec) execLock(st *State, mu Val, pos token.Pos) {
 	rec.AtLock = st.Clone()
 	st.labels[fmt.Sprintf("lock%d", fx.lockOrd)] = rec.AtLock
 	st.lockInfo[key] = rec
+}
+
+// envWrite records that location (key, ref) was havocked to model other goroutines; the frame
+// check speaks about this function's own writes to state that is not lock-protected
+func (fx *FuncExec) envWrite(key, ref string) {
+	if fx.discard > 0 {
+		return
+	}
+	if fx.envWrites == nil {
+		fx.envWrites = map[string][]string{}
+	}
+	fx.envWrites[key] = append(fx.envWrites[key], ref)
 }
 
 func ghostSort(s string) (string, error) {
